@@ -2,6 +2,8 @@ let props : (string * (module Frame.PROP)) list = [
   ("C01", (module C01));
   ("C03", (module C03));
   ("C04", (module C04));
+  ("C05", (module C05));
+  ("C08", (module C08));
   ("C09", (module C09));
   ("C10", (module C10));
   ("C11", (module C11));
